@@ -802,6 +802,28 @@ def cdata_edge_texts():
     return [p_ + "<![CDATA[" + b + e for p_ in pres for b in bodies for e in ends]
 
 
+def deep_family(tier):
+    """size only: stacks, lists and loop counters past 2^8 entries (a counter narrowed to u8, a cap on a list, a depth limit)
+    -> (text, None)"""
+    out = []
+    ns = (254, 255, 256, 259, 300) if tier == "quick" else (253, 254, 255, 256, 257, 258, 259, 260, 300, 511, 512, 515, 1030)
+    for n in ns:
+        bs = "".join("<b id=%d>" % i for i in range(1, n + 1))
+        out.append(("<!DOCTYPE html><body><a>" + bs + "<div>x</a>y", None))                 # adoption agency inner loop
+        out.append(("<a>" + "<i>" * n + "<p>x</a>y</i>z", None))
+        out.append(("<b>" * n + "<p>x" + "</b>" * 3 + "y", None))                            # reconstruct many entries
+        out.append(("".join("<b class=%d>" % (i % 5) for i in range(n)) + "x</p>y", None))   # Noah's ark over a long list
+        out.append(("<div>" * n + "<p>x" + "</div>" * (n - 1) + "y", None))
+        out.append(("<table><tr><td>" * n + "x" + "</table>" * (n // 2) + "y", None))
+        out.append(("<svg>" + "<g>" * n + "<p>x", None))                                      # foreign break-out over a deep stack
+        out.append(("<ul>" + "<li><span>" * n + "<li>x", None))                               # li walks the whole stack
+        out.append(("<select>" + "<option>" * n + "</select>x", None))
+        out.append(("<template>" * n + "x" + "</template>" * (n - 3) + "<td>y", None))        # template mode stack
+        out.append(("<p " + " ".join("a%d=%d" % (i, i) for i in range(n)) + " a1=z>x<html " +
+                    " ".join("h%d=%d" % (i, i) for i in range(n)) + ">", None))                # attribute lists
+    return out
+
+
 def fix_families():
     """families around the four defects repaired after the independent-spec proof (known_findings F38-F41);
     returns (text, ctx-or-None) with ctx = (ns, local)"""
